@@ -20,6 +20,7 @@ def main (args : List String) : IO UInt32 := do
   match args with
   | ["lc"] => Util.loop stdin Lcm.doLine; return 0
   | ["lc8"] => Util.loop stdin Lcm.doLine8; return 0
+  | ["rlc"] => Util.loop stdin Lcm.doLineRlc; return 0
   | ["dp"] => Util.loop stdin Dp.doLine; return 0
   | ["srt"] => Util.loop stdin Srt.doLine; return 0
   | ["chn"] => Util.loop stdin Chn.doLine; return 0
